@@ -55,6 +55,7 @@ var (
 
 	evHash  uint64
 	evCount uint64
+	evSeq   int64
 
 	ticks      uint64
 	softBudget uint64 = ^uint64(0)
@@ -84,7 +85,7 @@ func Reset(seed uint64) {
 	}
 	nDec, decOver = 0, false
 	forcedOn, nForced, forcedAt = false, 0, 0
-	evHash, evCount = 1469598103934665603, 0
+	evHash, evCount, evSeq = 1469598103934665603, 0, 0
 	ticks, softHit = 0, false
 	softBudget, hardBudget = ^uint64(0), ^uint64(0)
 	runtimeErrs, runtimeErrSite, runtimeErrFirst, runtimeErrOrigin = 0, 0, "", ""
@@ -186,6 +187,15 @@ func Event(a, b, c uint64) {
 	h = (h ^ c) * 1099511628211
 	evHash = h
 	evCount++
+}
+
+// Seq returns the next value of the run's global event sequence number
+// (used to stamp invoke/return of recorded operations).
+//
+//go:norace
+func Seq() int64 {
+	evSeq++
+	return evSeq
 }
 
 // EventHash returns the hash and count of all events of the run.
